@@ -648,5 +648,10 @@ func witnessDesigns() []*dg.Design {
 		{Name: "multi", Payload: obj(rstr("title"), str("note")), HTTP: &dg.HTTPMap{Routes: []dg.Route{rt("POST", "/multi")}, Multipart: true}},
 		{Name: "mq", Payload: obj(dg.F("m", dg.MapOf(dg.A(dg.Prim("String")), dg.A(dg.Prim("String"))))), HTTP: &dg.HTTPMap{Routes: []dg.Route{rt("GET", "/mq")}, Params: []dg.MapEntry{me("m", "")}}},
 	}}}})
+	// a service whose own path is absolute under an API base path: OpenAPI 2 keeps basePath
+	// (no route is absolute) and writes the key in full
+	ds = append(ds, &dg.Design{Name: "w_svcabs", BasePath: "/api", Services: []*dg.Service{
+		{Name: "s", BasePath: "//abs", Methods: []*dg.Method{{Name: "a", Payload: obj(rstr("id")), HTTP: &dg.HTTPMap{Routes: []dg.Route{rt("GET", "/x/{id}")}}}}},
+		{Name: "t", Methods: []*dg.Method{{Name: "b", HTTP: &dg.HTTPMap{Routes: []dg.Route{rt("GET", "/y")}}}}}}})
 	return ds
 }
